@@ -429,9 +429,10 @@ def run_shared(ctx):
                 fsub = M.FormulaGrader(variables=['x'], debug=True)
                 return {'fsub': fsub, 'S': M.SingleListGrader(answers=['x', 'x^2'], subgrader=fsub),
                         'L': M.ListGrader(answers=['x', 'x^2'], subgraders=fsub, ordered=True),
-                        'Sd': M.SingleListGrader(answers=['x', 'x^2'], subgrader=fsub, debug=True)}
+                        'Sd': M.SingleListGrader(answers=['x', 'x^2'], subgrader=fsub, debug=True),
+                        'Ld': M.ListGrader(answers=['x', 'x^2'], subgraders=fsub, ordered=True, debug=True)}
             calls = {'fsub': [('x', 'x'), ('x', 'x+')], 'S': [(None, 'x, x*x'), (None, 'x^2,x'), (None, 'x')], 'L': [(None, ['x', 'x*x']), (None, ['1', '2'])],
-                     'Sd': [(None, 'x,x^2'), (None, 'x,y')]}
+                     'Sd': [(None, 'x,x^2'), (None, 'x,y')], 'Ld': [(None, ['x', 'x*x']), (None, ['x', '2']), (None, ['x+', 'x'])]}
         elif mode == 2:
             # negative powers switched per grader, interleaved with raising calls
             def build():
